@@ -473,6 +473,9 @@ func (ex *Exec) resolveModList(env *Env, list []*SExpr, ms *ModSet) {
 					lo = pre.intTerm(m.Args[1])
 				}
 				ms.Mem = append(ms.Mem, memRegion{tByte, bufArr(identOf(b)), lo, IntB(pow2[64])})
+			case "chanstate": // open/closed state of a channel
+				ch := pre.eval(m.Args[0])
+				ms.Heap["#chanclosed"] = append(ms.Heap["#chanclosed"], ch.L[0])
 			case "mapof":
 				mv := pre.eval(m.Args[0])
 				k := typeKey(mv.T)
